@@ -104,6 +104,7 @@ type vPeer struct {
 	applied  bool
 	shut     bool
 	seq      int
+	stall    int32 // 1: the message callback blocks (a client that stops reading)
 }
 
 // vNewPeer creates a peer connection with one data channel and a complete
@@ -138,6 +139,9 @@ func vNewPeerOpt(negotiated bool) (*vPeer, error) {
 	dc.OnOpen(func() { p.openOnce.Do(func() { close(p.open) }) })
 	dc.OnClose(func() { p.clOnce.Do(func() { close(p.closed) }) })
 	dc.OnMessage(func(m webrtc.DataChannelMessage) {
+		for atomic.LoadInt32(&p.stall) == 1 {
+			time.Sleep(20 * time.Millisecond)
+		}
 		select {
 		case p.inbox <- string(m.Data):
 		default:
@@ -298,6 +302,7 @@ type vRelayConn struct {
 	wmu    sync.Mutex
 	query  string
 	closed int32
+	sent   int64 // bytes written downstream in stream mode
 }
 
 func (c *vRelayConn) shutdown() {
@@ -316,7 +321,7 @@ func (c *vRelayConn) isGone() bool {
 
 // vRelay is an HTTP server whose every path upgrades to WebSocket. The path
 // is "/<key>/<mode>": key attributes the connection to a harness session,
-// mode is echo | close-now | close-after-first | stream.
+// mode is echo | close-now | close-after-first | stream | burst.
 type vRelay struct {
 	ln      net.Listener
 	host    string
@@ -425,6 +430,27 @@ func (r *vRelay) serve(w http.ResponseWriter, req *http.Request) {
 		if mode == "close-after-first" {
 			return
 		}
+		if mode == "burst" {
+			// after the client's first message: 4 MiB in 16 KiB messages, then silence
+			// (the relay stays connected and goes on reading)
+			go func() {
+				chunk := make([]byte, 16<<10)
+				for i := 0; i < 256; i++ {
+					c.wmu.Lock()
+					err := ws.WriteMessage(websocket.BinaryMessage, chunk)
+					c.wmu.Unlock()
+					if err != nil {
+						return
+					}
+					atomic.AddInt64(&c.sent, int64(len(chunk)))
+				}
+			}()
+			mode = "sink"
+			continue
+		}
+		if mode == "sink" {
+			continue
+		}
 		if mode == "stream" {
 			// after the client's first message: a never-ending download
 			chunk := make([]byte, 1200)
@@ -435,6 +461,7 @@ func (r *vRelay) serve(w http.ResponseWriter, req *http.Request) {
 				if err != nil {
 					return
 				}
+				atomic.AddInt64(&c.sent, int64(len(chunk)))
 			}
 		}
 		c.wmu.Lock()
